@@ -376,15 +376,20 @@ impl<'source> Iterator for Lexer<'source> {
                     self.comment_depth += 1;
                     continue;
                 }
-                | Some((Ok(Tok::CommentClose), _)) => {
+                | Some((Ok(Tok::CommentClose), range)) => {
                     if self.comment_depth == 0 {
-                        break None;
+                        // A stray terminator is a token the grammar rejects, not the end of input.
+                        break Some((range.start, Tok::CommentClose, range.end));
                     }
                     self.comment_depth -= 1;
                 }
                 | Some((Ok(_tok), _)) if self.comment_depth > 0 => continue,
                 | Some((Ok(tok), range)) => break Some((range.start, tok, range.end)),
-                | _ => break None,
+                | Some((Err(()), _)) if self.comment_depth > 0 => continue,
+                | Some((Err(()), range)) => {
+                    break Some((range.start, Tok::Unknown(self.inner.slice()), range.end));
+                }
+                | None => break None,
             }
         }
     }
